@@ -7,6 +7,7 @@ c05_program.py for the assembly of units into three-module programs.
 from __future__ import annotations
 
 import random
+import re
 from typing import Any
 
 from vlib.c05_gen import (ANY_TYPES, DICT_TYPES, ELEMS, ExprGen, LIST_TYPES, OPT_TYPES, PARAM_TYPES, SCALARS, SET_TYPES,
@@ -316,17 +317,20 @@ class FuncGen(ExprGen):
         self.scope.push()
         for v, t in lvars:
             self.scope.add(v, t)
-        added = ng is not None and ng not in self.nogrow
-        if added and ng:
-            self.nogrow.add(ng)
+        # every container variable the header reads must not grow inside the body (endless iteration otherwise)
+        names = set(re.findall(r"[A-Za-z_]\w*", hdr.split(" in ", 1)[1]))
+        grow_guard = [n for n, t in self.scope.all().items() if n in names and n not in self.nogrow
+                      and t.startswith(("list[", "dict[", "set[", "str", "bytes")) or (n in names and t in ("Any",) and n not in self.nogrow)]
+        for n in grow_guard:
+            self.nogrow.add(n)
         self.loop_depth += 1
         body = self.block(rng.choice([1, 2, 2, 3]), depth - 1)
         if rng.random() < 0.3 and not self.leaves_try_finally():
             body += [f"if {self.expr('bool', 1)}:"] + ind([rng.choice(["break", "continue"])])
             self.tags.add("stmt.loopctl")
         self.loop_depth -= 1
-        if added and ng:
-            self.nogrow.discard(ng)
+        for n in grow_guard:
+            self.nogrow.discard(n)
         self.scope.pop()
         out = [hdr] + ind(body)
         if rng.random() < 0.15:
